@@ -105,9 +105,9 @@ theorem setNumbers_irreversible (cur : S) (n : Node M) : (setNumbers G cur n).ir
   · rfl
   · split <;> (try split) <;> rfl
 
-theorem ofNat_length_eq_zero (hsb : SmallBranching G) (s : S) (h : UInt32.ofNat (G.moves s).length = 0) :
+theorem ofNat_length_eq_zero (s : S) (hsb : (G.moves s).length < 2 ^ 32) (h : UInt32.ofNat (G.moves s).length = 0) :
     G.moves s = [] := by
-  have hb := hsb s
+  have hb := hsb
   rw [u32_eq_zero_iff] at h
   simp only [UInt32.toNat_ofNat'] at h
   have : (G.moves s).length = 0 := by omega
@@ -117,7 +117,7 @@ theorem no_succ_of_no_moves {s s' : S} (h : G.moves s = []) : ¬ Succ G s s' := 
   rintro ⟨m, hm, _⟩; rw [h] at hm; exact absurd hm (by simp)
 
 /-- numbers of a node that has not been expanded: from its value -/
-theorem setNumbers_leaf_ok (hsb : SmallBranching G) {dl : Bool} {h : List S} {s : S} {n : Node M}
+theorem setNumbers_leaf_ok {dl : Bool} {h : List S} {s : S} {n : Node M} (hsb : (G.moves s).length < 2 ^ 32)
     (hexp : n.expanded = false)
     (hP : n.value = .proven → PlainWin G att s)
     (hD : dl = false → n.value = .disproven → ¬ Win G att h s)
@@ -136,7 +136,7 @@ theorem setNumbers_leaf_ok (hsb : SmallBranching G) {dl : Bool} {h : List S} {s 
       simp only [Node.proof] at hp
       split at hp
       · rename_i ha
-        have hm := ofNat_length_eq_zero G hsb s hp
+        have hm := ofNat_length_eq_zero G s hsb hp
         exact .defender hover (hside.mp ha) (fun s' hs' => absurd hs' (no_succ_of_no_moves G hm))
       · exact absurd hp (by decide)
     · intro _ hd w
@@ -144,7 +144,7 @@ theorem setNumbers_leaf_ok (hsb : SmallBranching G) {dl : Bool} {h : List S} {s 
       split at hd
       · exact absurd hd (by decide)
       · rename_i ha
-        have hm := ofNat_length_eq_zero G hsb s hd
+        have hm := ofNat_length_eq_zero G s hsb hd
         cases w with
         | terminal ho => rw [hover] at ho; exact absurd ho (by simp)
         | attacker _ _ _ hs' _ => exact no_succ_of_no_moves G hm hs'
